@@ -115,6 +115,16 @@ pub enum Op {
     ForPush { h: usize, n: u64 },
     /// script `for x in l { if x == v { return i } i = i + 1 } i` (leaves the loop early)
     ForFind { h: usize, v: MVal },
+    /// five pushes in a row, issued as one operation (two growth boundaries of a short list fall
+    /// inside one window of another thread's operation); each push is atomic on its own
+    PushMany { h: usize, vals: Vec<MVal> },
+    /// `get(i)`, then `index` with the element that came back (for handle-like element types -
+    /// strings, nested lists - the needle *is* one of the elements, not a fresh equal value)
+    IndexGot { h: usize, i: u64 },
+    /// script: `while i < n { let t = [A, B]; t.push(C); acc = acc + t.len(); for y in t { l.push(y); } i = i + 1; }`
+    /// followed by `for z in [A, B] { let u = [C]; u.push(z); acc = acc + u.len(); }` - list literals
+    /// whose elements are all literals, evaluated repeatedly inside loops and mutated there
+    LoopLit { h: usize, n: u64, lits: Vec<MVal> },
     /// nested element type only: push `v` to inner list `inner` through its own handle
     /// (every alias stored in an outer list must observe it)
     InnerPush { inner: usize, v: u64 },
@@ -304,6 +314,26 @@ impl SeqModel {
                 Some(id) => Obs::OptNum(self.heap.index_of(id, v).map(|x| x as u64)),
                 None => Obs::Skipped,
             },
+            Op::PushMany { h, vals } => match self.lid(*h) {
+                Some(id) => {
+                    self.heap.lists[id].extend(vals.iter().cloned());
+                    Obs::Unit
+                }
+                None => Obs::Skipped,
+            },
+            Op::IndexGot { h, i } => match self.lid(*h) {
+                Some(id) => Obs::OptNum(self.heap.lists[id].get(*i as usize).cloned().and_then(|v| self.heap.index_of(id, &v)).map(|x| x as u64)),
+                None => Obs::Skipped,
+            },
+            Op::LoopLit { h, n, lits } => match self.lid(*h) {
+                Some(id) => {
+                    for _ in 0..*n {
+                        self.heap.lists[id].extend(lits.iter().cloned());
+                    }
+                    Obs::Num(3 * n + 4)
+                }
+                None => Obs::Skipped,
+            },
             Op::Concat { a, b, dst, .. } => match (self.lid(*a), self.lid(*b)) {
                 (Some(x), Some(y)) => {
                     let mut v = self.heap.lists[x].clone();
@@ -423,6 +453,8 @@ pub enum LOp {
     IterVals { l: ListId },
     /// `join(sep)` of a list of strings: one atomic read
     Join { l: ListId, sep: String },
+    /// a sequence of atomic pushes
+    PushSeq { l: ListId, vals: Vec<MVal> },
     /// no effect on the model (handle clone/drop)
     Nop,
 }
@@ -463,6 +495,17 @@ fn steps(ev: &Event, sub: &Sub, heap: &Heap) -> Vec<(Sub, Option<Heap>)> {
             h.lists[*l].push(v.clone());
             out.push((Sub::Done, Some(h)));
         }
+        (LOp::PushSeq { .. }, Sub::Fresh) => {
+            return steps(ev, &Sub::Loop(0, 0), heap);
+        }
+        (LOp::PushSeq { l, vals }, Sub::Loop(i, _)) => match vals.get(*i as usize) {
+            Some(v) => {
+                let mut h = heap.clone();
+                h.lists[*l].push(v.clone());
+                out.push((if *i as usize + 1 == vals.len() { Sub::Done } else { Sub::Loop(i + 1, 0) }, Some(h)));
+            }
+            None => done(true, &mut out),
+        },
         (LOp::Swap { l, i, j }, Sub::Fresh) => {
             let mut h = heap.clone();
             let (i, j) = (*i as usize, *j as usize);
